@@ -307,7 +307,7 @@ class VariableElimination(Inference):
             # The engine works on an augmented copy for this call only.
             orig_model = self.model
             self._virtual_evidence(virtual_evidence)
-            virt_evidence = {"__" + cpd.variables[0]: 0 for cpd in virtual_evidence}
+            virt_evidence = {"__" + str(cpd.variables[0]): 0 for cpd in virtual_evidence}
             try:
                 return self.query(
                     variables=variables,
@@ -562,7 +562,7 @@ class VariableElimination(Inference):
             # The engine works on an augmented copy for this call only.
             orig_model = self.model
             self._virtual_evidence(virtual_evidence)
-            virt_evidence = {"__" + cpd.variables[0]: 0 for cpd in virtual_evidence}
+            virt_evidence = {"__" + str(cpd.variables[0]): 0 for cpd in virtual_evidence}
             try:
                 return self.map_query(
                     variables=variables,
@@ -1120,7 +1120,7 @@ class BeliefPropagation(Inference):
             # The engine works on an augmented copy for this call only.
             orig_model = self.model
             self._virtual_evidence(virtual_evidence)
-            virt_evidence = {"__" + cpd.variables[0]: 0 for cpd in virtual_evidence}
+            virt_evidence = {"__" + str(cpd.variables[0]): 0 for cpd in virtual_evidence}
             try:
                 return self.query(
                     variables=variables,
@@ -1224,7 +1224,7 @@ class BeliefPropagation(Inference):
             # The engine works on an augmented copy for this call only.
             orig_model = self.model
             self._virtual_evidence(virtual_evidence)
-            virt_evidence = {"__" + cpd.variables[0]: 0 for cpd in virtual_evidence}
+            virt_evidence = {"__" + str(cpd.variables[0]): 0 for cpd in virtual_evidence}
             try:
                 return self.map_query(
                     variables=variables,
